@@ -295,6 +295,47 @@ func runC10(c *Ctx) {
 	s.checkHealthReset(c, "health-reset")
 	s.checkStatusStoreCallsHook(c, "status-store-calls-hook")
 	s.checkProberLifecycle(c, "prober-lifecycle")
+	// every stop of a running process stops its probers first, whoever asked for the stop: the failure counter of a
+	// prober is reset only by stopping it, and "threshold reached" is an equality test
+	{
+		rule := c.Rule("stop-stops-probers", "in the stop core every path to a signal (Commander.Stop on the command or the configured shutdown command) first stops both probers (Prober.Stop on readyProber and liveProber when set), for the internal stop as well as for the explicit one")
+		requireN("StopCore", s.StopCores, 1, 1)
+		sc := s.StopCores[0]
+		proberStop := p.TryMethod("health", "Prober", "Stop")
+		sig := p.Deep(MethodOnField("command.Stop", s.FCommand, s.MStop))
+		var signals []ssa.Instruction
+		AllInstrs(sc, func(in ssa.Instruction) {
+			if call, ok := in.(*ssa.Call); ok && sig.MayAt(call) {
+				signals = append(signals, in)
+			}
+		})
+		c.Check(proberStop != nil && len(signals) > 0, rule, "shape", FirstPos(p, sc), "signal sites and Prober.Stop found", "the stop core has no signal site or Prober.Stop does not exist")
+		if proberStop != nil {
+			for _, fld := range []*types.Var{s.FReadyProber, s.FLiveProber} {
+				stopD := p.Deep(Site{Name: "Prober.Stop on " + fld.Name(), Call: func(cc *ssa.CallCommon) bool {
+					return cc.StaticCallee() == proberStop && len(cc.Args) > 0 && PathOf(cc.Args[0]).LastField() == fld
+				}})
+				// may-reach form: a callee that stops the prober when it is set counts (the nil test is its own)
+				barrier := func(in ssa.Instruction) bool {
+					if _, isGo := in.(*ssa.Go); isGo {
+						return false
+					}
+					if _, isDefer := in.(*ssa.Defer); isDefer {
+						return false
+					}
+					return stopD.MayAt(in)
+				}
+				vis := Reach(Entry(sc), barrier, nil)
+				ok := true
+				for _, sgn := range signals {
+					if vis[sgn] && !barrier(sgn) {
+						ok = false
+					}
+				}
+				c.Check(ok, rule, fld.Name(), FirstPos(p, sc), "stopped before the signal on every path", "a path of the stop core signals the process without stopping "+fld.Name()+" (e.g. only for explicit stops): the prober keeps its consecutive-failure count across the restart, never equals the threshold again, and a process that stays unready is not restarted a second time")
+			}
+		}
+	}
 	s.checkStopCoreTable(c, "internal-stop-keeps-policy", "internal")
 
 	// ------------------------------------------------------------------ (7)
